@@ -22,14 +22,15 @@ import (
 func init() {
 	fw.Register(&fw.Prop{
 		ID: "C17", Level: "exploration",
-		Rule: "one case = one generated session of a statically scoped program: 1-4 files minified together and loaded in order, 1-4 packages (in-package/export/use-package/qualified names), every binding form (let let* flet labels lambda defun defmacro macrolet dotimes), shadowing of locals/parameters/globals/builtins, closures and set!, labels mutual recursion, defmacro quasiquote templates naming globals, quoted data and identifiers spelled like renamed names or like minifier output (x1 x2 ...), excluded names, keyword arguments only when parameters are never renamed; each session is judged under the command defaults plus up to three of {rename-exports, rename-params, exclusions}. A (session, configuration) pair is DISTINCT by (configuration, files, packages, outcome class of the original run, set of construct tags actually emitted) and counts only when the minifier reported at least one rename (otherwise trivial).",
+		Rule: "one case = one generated session of a statically scoped program: 1-4 files minified together and loaded in order, 1-4 packages (in-package/export/use-package/qualified names), every binding form (let let* flet labels lambda defun defmacro macrolet dotimes), shadowing of locals/parameters/globals/builtins, closures and set!, labels mutual recursion, defmacro quasiquote templates naming globals, quoted data and identifiers spelled like renamed names or like minifier output (x1 x2 ...), excluded names, keyword arguments only when parameters are never renamed; each session is judged under the command defaults plus up to three of {rename-exports, rename-params, exclusions}; the files are named plainly (f1.lisp ...) in a third of the sessions and otherwise placed in directories (one level, nested, shared), with equal base names in different directories, absolute / relative / mixed spellings, ./ and ../ prefixes, spaces, dots, non-ASCII letters and | : \\ # in names, missing or doubled extensions; a third of the multi-file cases hand the files to Minify in another order than the load order (reversed, sorted by path, rotated); a later file may start with a copy under another package name, laid out alike, of the segment that opens an earlier file (equal definitions at equal line:column in two files). A (session, configuration) pair is DISTINCT by (configuration, files, packages, outcome class of the original run, set of construct tags actually emitted) and counts only when the minifier reported at least one rename (otherwise trivial).",
 		Assumptions: []string{
 			"the real evaluator (a FRESH runtime per run, files loaded in order with LoadString, core language without the stdlib packages) is the reference for 'meaning'; the check compares the original and the minified run and does not model scoping itself",
 			"transcripts compare the value (function values only as 'is a function'), the Runtime.Stderr bytes (skipped when the original printed a function value) and the error condition name; error messages and stack traces are not compared because they legitimately spell renamed symbols",
 			"generated macros are hygienic by construction (template binders are never used at call sites; a macro is called only where none of its template's free names is locally rebound and only from a package in which those names denote the same globals); no symbol is computed at run time; no defun/defmacro/set occurs inside a function body; no name changes what it resolves to while the session loads",
 			"the minifier is configured exactly as cmd/minify.go configures it (compact, comments stripped); PreserveParams=false is used only for sessions that pass no keyword argument",
 			"interpretations that decide whether some findings count: (a) a quasiquote form evaluated as DATA is quoted data whose value must be preserved; (b) a defun inside a top-level let/progn is not 'inside a function body'; (c) defining the same global twice (same package) is one statically resolved binding assigned twice; (d) an unrenamed token that merely is spelled like an assigned name is counted, not judged (the statement speaks of the renames the map reports)",
-			"finding keys are derived from the program each failure shrinks to; a failure with the same cheap pre-signature as two earlier ones of the same worker that shrank to one key is reported under that key without shrinking",
+			"the path strings given to Minify and the order of the inputs are not part of the program: the twin runs load the sources with LoadString under the same names and open no file, so every naming and every input order of the same sources must yield programs that behave alike; two inputs always have different cleaned paths; the input order is left equal to the load order when some name is defined in two files of one package (only the input order can then tell which definition is the later one)",
+			"finding keys are derived from the program each failure shrinks to; a failure that disappears when the shrunk session's files are renamed f1.lisp, f2.lisp, ... is keyed by the features of the naming that are left (file-naming:<features>) before any program-shaped family is considered; a failure with the same cheap pre-signature as two earlier ones of the same worker that shrank to one key is reported under that key without shrinking",
 		},
 		Cases: func(tier string) int {
 			if tier == "thorough" {
@@ -131,6 +132,10 @@ func c17PreSignature(sess *c17Session, cfg c17Cfg, f c17Finding) string {
 			sb.WriteString(t + ",")
 		}
 	}
+	sb.WriteString("|" + strings.Join(c17PathFeatures(sess.Paths), ","))
+	if sess.Used["twin-file"] > 0 {
+		sb.WriteString("|twin-file")
+	}
 	return sb.String()
 }
 
@@ -192,7 +197,18 @@ func c17BuildCase(r *fw.RNG, present map[string]bool) (sess *c17Session, srcs []
 		lay = nil // canonical layout
 	}
 	srcs = make([]string, len(sess.Files))
+	var layAt []c17Rng // state of the layout stream when each file was started
 	for i, f := range sess.Files {
+		if lay != nil {
+			layAt = append(layAt, *lay.r)
+			if t, ok := sess.TwinOf[i]; ok && t < i {
+				// written after the template of file t: laid out by the same hand
+				// (same stream state, so the copied forms break lines alike)
+				st := layAt[t]
+				srcs[i] = c17RenderFile(f, &c17Layout{r: &st})
+				continue
+			}
+		}
 		srcs[i] = c17RenderFile(f, lay)
 	}
 
@@ -212,6 +228,28 @@ func c17BuildCase(r *fw.RNG, present map[string]bool) (sess *c17Session, srcs []
 		}
 		sort.Strings(ex)
 		cfgs = append(cfgs, c17Cfg{PreserveParams: kwOK || r.Bool(), Excl: ex})
+	}
+	// how the files are named, and in which order the minifier gets them (both
+	// drawn last and from a stream of their own: the sessions themselves are
+	// the ones generated before these dimensions existed)
+	pr := c17NewRng(seed ^ 0x70617468732b6f72)
+	sess.Paths = c17LayoutPaths(pr, len(sess.Files), sess.TwinOf)
+	for _, ft := range c17PathFeatures(sess.Paths) {
+		sess.Used["paths:"+ft]++
+	}
+	if len(sess.Files) > 1 && pr.chance(1, 3) {
+		// Which of two definitions of one name in two files of a package is the
+		// later one is a matter of load order, which the minifier can only take
+		// from the input order: such sessions keep it.
+		if !c17Signature(&c17Case{Files: sess.Files}).flags["name-defined-in-two-files-of-one-package"] {
+			order := c17Pick(pr, []string{"reversed", "sorted", "rotated"})
+			if !c17IsIdentity(c17InputOrder(order, sess.Paths)) {
+				for i := range cfgs {
+					cfgs[i].Order = order
+				}
+				sess.Used["input-order:"+order]++
+			}
+		}
 	}
 	return sess, srcs, cfgs
 }
@@ -513,6 +551,50 @@ func c17Report(w *fw.W, st *c17State, idx int, sess *c17Session, srcs []string, 
 
 // c17Key derives the finding key from the shrunk case.
 func c17Key(min *c17Case, f *c17Finding, evals *int) string {
+	stillFails := func(alt *c17Case) bool {
+		det := 2
+		if f.Group == "det" {
+			det = 10
+		}
+		fs, _, _ := c17Judge(alt.Paths, alt.render(), alt.Cfg, nil, evals, det)
+		for _, x := range fs {
+			if x.Group == f.Group && x.Cat != "unaligned" && x.Cat != "ambiguous-not-judged" {
+				return true
+			}
+		}
+		return false
+	}
+	// Does the failure depend on how the files are NAMED?  The same sources under
+	// the plain names f1.lisp, f2.lisp, ... are the same program; if they pass,
+	// the input class is the naming (what is left of it after shrinking), not the
+	// shape of the program.  Asked before anything else: the program of such a
+	// failure can look like any of the program-shaped families.
+	if flat := c17FlatPaths(len(min.Paths)); strings.Join(flat, "\x00") != strings.Join(min.Paths, "\x00") {
+		feats := c17PathFeatures(min.Paths)
+		if len(feats) == 0 {
+			feats = []string{"plain-names-sorting-against-load-order"}
+		}
+		alt := min.clone()
+		alt.Paths = flat
+		if stillFails(alt) {
+			min = alt // the naming is incidental (the shrinker ran out of budget before trying)
+		} else {
+			var key string
+			switch f.Group {
+			case "sem":
+				key = "meaning-changed:file-naming:"
+			case "det":
+				key = "nondeterministic:file-naming:"
+			default:
+				key = f.Cat + ":file-naming:"
+			}
+			key += strings.Join(feats, "+")
+			if n := min.Cfg.name(); n != "defaults" && f.Group != "det" {
+				key += "@" + n
+			}
+			return key
+		}
+	}
 	srcs := min.render()
 	m := c17Minify(min.Paths, srcs, min.Cfg)
 	if m.Err == nil && (f.Group == "sem" || f.Group == "map") {
